@@ -270,3 +270,16 @@ fn retry_small_counts_all_scripts() {
         (Err(e), _) => { core::mem::forget(e); assert!(false); }
     }
 }
+
+/// Minecraft string framing on a non-ASCII host name: the length prefix counts UTF-8 BYTES (wiki.vg "String"), not characters
+#[kani::proof]
+#[kani::unwind(12)]
+#[kani::stub(crate::errors::kind::GDErrorKind::context, stub_context)]
+#[kani::stub(<crate::errors::error::GDError as std::convert::From<crate::errors::kind::GDErrorKind>>::from, stub_from_kind)]
+#[kani::stub(alloc::fmt::format, stub_format)]
+fn mc_as_string_multibyte() {
+    let v = crate::games::minecraft::as_string("m\u{fc}n").unwrap();
+    assert!(v.len() == 5);
+    assert!(v[0] == 4 && v[1] == b'm' && v[2] == 0xC3 && v[3] == 0xBC && v[4] == b'n');
+    core::mem::forget(v);
+}
